@@ -68,12 +68,14 @@ func c04Scenarios(tier string) []*Scenario {
 			for _, setName := range order {
 				c, noFC, setName := c, noFC, setName
 				cfg := TunCfg{Reverse: c.rev, ServerNoFC: noFC}
-				opt := Options{Level: "io", Bound: 1, DevOK: onlyFaults}
+				opt := Options{Level: "io", Bound: 2, DevOK: oneFaultAnyOrder}
+				if setName == "all" {
+					opt = Options{Level: "io", Bound: 1, DevOK: onlyFaults}
+				}
 				if thorough {
-					opt = Options{Level: "io", Bound: 2, DevOK: faultThenAny}
+					opt = Options{Level: "chan", Bound: 2, DevOK: oneFaultAnyOrder}
 					if setName == "all" {
-						opt.Bound = 1
-						opt.DevOK = onlyFaults
+						opt = Options{Level: "io", Bound: 2, DevOK: oneFaultAnyOrder}
 					}
 				}
 				switch c.name {
@@ -200,7 +202,7 @@ func onlyThisFault(w *World, kind string) bool {
 
 func init() {
 	register(&PropDef{ID: "C04", Level: "fault_enumeration",
-		Rule:      "every termination cause {Close on either end, opening-context cancel and deadline, Stop, carrier failure} x {forward, reverse} x {flow control, revision zero} x in-flight RPC sets {none, one per phase, all five phases together} x every quiescent point of the run at carrier/application granularity (quick: the cause alone, D=1; thorough: cause + one further schedule deviation); oracle TERM: no hang, every in-flight call non-OK, every handler context cancelled, Done closed, Err nil iff clean, Serve returned, a later RPC fails, nothing left behind; non-trivial = distinct orders of conflicting accesses",
+		Rule:      "every termination cause {Close on either end, opening-context cancel and deadline, Stop, carrier failure} x {forward, reverse} x {flow control, revision zero} x in-flight RPC sets {none, one per phase, all five phases together} x every quiescent point of the run (quick: carrier/application granularity, the cause plus one further schedule deviation in either order for single-RPC sets, the cause alone for the five-phase set; thorough: every channel operation of the library is a scheduling point as well, and the five-phase set also gets the extra deviation); oracle TERM: no hang, every in-flight call non-OK, every handler context cancelled, Done closed, Err nil iff clean, Serve returned, a later RPC fails, nothing left behind; non-trivial = distinct orders of conflicting accesses",
 		Globals:   []func(*Scenario, *World, *Exec) []Violation{ProtoMonitor},
 		Scenarios: c04Scenarios})
 }
